@@ -7,7 +7,7 @@ wt=/tmp/wt/seedrepo-$$
 git -C /repo worktree add -q --detach "$wt" HEAD || exit 2
 ( cd "$wt" && git apply "$d/patch.diff" ) || { echo "patch does not apply"; git -C /repo worktree remove --force "$wt"; exit 2; }
 for p in "$@"; do
-  out=$(cd /verif && VERIF_REPO="$wt" VERIF_OUT_DIR=/tmp/wt/seedout-$$ ./check "$p" --tier ${TIER:-quick} 2>/dev/null | grep "^OK\|^VIOLATION\|^ENGINE-ERROR\|^KNOWN" | head -4)
+  out=$(cd /verif && VERIF_REPO="$wt" VERIF_OUT_DIR=/tmp/wt/seedout-$$ ./check "$p" --tier ${TIER:-quick} 2>/dev/null | grep "^OK\|^VIOLATION\|^ENGINE-ERROR\|^KNOWN" | sort -r | head -4)
   echo "== $(basename $d) $p: $(echo "$out" | head -3 | cut -c1-260)"
 done
 git -C /repo worktree remove --force "$wt"
